@@ -242,8 +242,12 @@ class Records(object):
 # ------------------------------------------------------------------------------------------------
 # the daemon
 # ------------------------------------------------------------------------------------------------
+def _close_stdin():
+    os.close(0)
+
+
 class Daemon(object):
-    def __init__(self, directory, ini_text, args=(), loglevel="info", env=None):
+    def __init__(self, directory, ini_text, args=(), loglevel="info", env=None, stdin_closed=False):
         self.dir = directory
         os.makedirs(directory, exist_ok=True)
         self.ini = os.path.join(directory, "circus.ini")
@@ -254,6 +258,7 @@ class Daemon(object):
         self.args = list(args)
         self.loglevel = loglevel
         self.env = env or {}
+        self.stdin_closed = stdin_closed     # start circusd with descriptor 0 closed (`circusd ... <&-`)
         self.p = None
         self.t_start = None
         self.seen_children = {}      # pid -> start_ticks, everything ever seen as a direct child
@@ -268,7 +273,8 @@ class Daemon(object):
         self.t_start = time.time()
         self.p = subprocess.Popen([PYTHON, "-B", "-m", "circus.circusd", "--log-level", self.loglevel] + self.args +
                                   [self.ini], cwd=self.dir, env=env, stdin=subprocess.DEVNULL, stdout=self._log,
-                                  stderr=subprocess.STDOUT, close_fds=True, start_new_session=True)
+                                  stderr=subprocess.STDOUT, close_fds=True, start_new_session=True,
+                                  preexec_fn=(_close_stdin if self.stdin_closed else None))
         return self.p.pid
 
     @property
